@@ -358,6 +358,26 @@ def gen_numeric(out):
 EXTRA.append(gen_numeric)
 
 
+def str_dict(fn):
+    for n in ast.walk(fn):
+        if isinstance(n, ast.Dict) and n.keys and all(isinstance(k, ast.Constant) and isinstance(k.value, str) for k in n.keys) \
+                and all(isinstance(v, ast.Constant) and isinstance(v.value, str) for v in n.values):
+            return [[k.value, v.value] for k, v in zip(n.keys, n.values)]
+    raise ValueError('no str dict')
+
+
+def gen_guards(out):
+    util_t = src_ast('lesscpy/lessc/utility.py')
+    expr_t = src_ast('lesscpy/plib/expression.py')
+    out.put('guard_rev', 'list (str * str)', lambda v: coq_list(['(%s, %s)' % (coq_str(a), coq_str(b)) for a, b in v]),
+            lambda: str_dict(find_def(util_t, None, 'reverse_guard')))
+    out.put('expr_ops', 'list (str * pyop)', to_coq_ops,
+            lambda: op_dict(find_def(expr_t, 'Expression', 'operate')))
+
+
+EXTRA.append(gen_guards)
+
+
 def render(out):
     lines = ['(* GENERATED by harness/gen_params.py from %s — do not edit, do not commit. *)' % REPO,
              'From Coq Require Import String.',
